@@ -47,7 +47,7 @@ def fresh_vec(ex, base):
 
 def build(ex, roots, children, lifted):
     """Real state handler on a symbolic tree; ``lifted`` = set of leaf identifiers that move (roots follow)."""
-    jf.init_hypercubic(DIM, 1.0, roots=roots, per_root=max(1, children))
+    jf.init_hypercubic(DIM, 1.0, roots=roots, per_root=max(1, children), levels=(1 if children == 0 else 2))
     ref = Ref()
     nodes = []
     ids = []
@@ -319,6 +319,10 @@ def explore_active(task):
     # the identifier a branch was extracted for: root branches of a fully moving composite are extracted by (r,),
     # leaf branches by (r, c); recover it from the branch shape
     def _ident(b):
+        if children == 1:
+            # a root with a single child: the branch of the root and the branch of its child have the same shape
+            # (root -> child); both name the one independently moving composite, identified here by the root
+            return b.value.identifier
         node = b
         while len(node.children) == 1:
             node = node.children[0]
@@ -351,7 +355,7 @@ def replay_iso(model, q):
     def nxt():
         counter[0] += 1.0
         return counter[0] / 1024.0
-    jf.init_hypercubic(DIM, 1.0, roots=roots, per_root=max(1, children))
+    jf.init_hypercubic(DIM, 1.0, roots=roots, per_root=max(1, children), levels=(1 if children == 0 else 2))
     try:
         nodes, ids = [], []
         for r in range(roots):
@@ -453,8 +457,66 @@ def replay_iso(model, q):
         jf.reset_settings()
 
 
+def want_active(roots, children, lifted):
+    if children == 0:
+        return sorted(lifted)
+    want = []
+    for r in range(roots):
+        mine = [lf for lf in lifted if lf[0] == r]
+        if len(mine) == children:
+            want.append((r,))
+        else:
+            want += mine
+    return sorted(want)
+
+
+def branch_ident(b, children):
+    if children == 1:
+        return b.value.identifier
+    node = b
+    while len(node.children) == 1:
+        node = node.children[0]
+    return node.value.identifier if not node.children else b.value.identifier
+
+
 def replay_active(model, q):
-    return {"reproduced": False, "what": "active-part counterexample (concrete structure, see query name %s)" % q.name}
+    """The active-part counterexample is a concrete structure (tree shape + lifted set): rebuilt with plain floats."""
+    info = q.info
+    roots, children = info["roots"], info["children"]
+    lifted = info.get("lifted", "()")
+    lifted = tuple(tuple(i) for i in (eval(lifted) if isinstance(lifted, str) else lifted))
+    counter = [0.0]
+
+    def nxt():
+        counter[0] += 1.0
+        return counter[0] / 1024.0
+    jf.init_hypercubic(DIM, 1.0, roots=roots, per_root=max(1, children), levels=(1 if children == 0 else 2))
+    try:
+        nodes = []
+        for r in range(roots):
+            node = Node(Unit((r,), [nxt() for _ in range(DIM)], charge={"c": 1.0}), weight=1)
+            for c in range(children):
+                node.add_child(Node(Unit((r, c), [nxt() for _ in range(DIM)], charge={"c": 1.0}), weight=1.0 / children))
+            nodes.append(node)
+        sh = TreeStateHandler(TreePhysicalState(), TreeLiftingState())
+        sh.initialize(nodes)
+        for lid in lifted:
+            br = sh.extract_from_global_state(lid)
+            for u in branch_units(br):
+                if u.identifier == lid[:len(u.identifier)]:
+                    u.velocity = [nxt() for _ in range(DIM)]
+                    u.time_stamp = Time(float(int(nxt() * 1024)), nxt())
+            sh.insert_into_global_state([br])
+        got = sorted(branch_ident(b, children) for b in sh.extract_active_global_state())
+        want = want_active(roots, children, lifted)
+        if got != want:
+            return {"reproduced": True,
+                    "what": "tree %d roots x %d children with moving leaves %s: extract_active_global_state returns "
+                            "branches for %s, the independently moving units are %s" % (roots, children, lifted, got, want),
+                    "data": {"kind": "active", "info": {"roots": roots, "children": children, "lifted": str(lifted)}}}
+        return {"reproduced": False, "what": "active part %s as expected natively" % (got,)}
+    finally:
+        jf.reset_settings()
 
 
 def main():
@@ -470,9 +532,9 @@ def main():
                 TreeLiftingState._yield_independent_lifted_identifiers_simple, TreeLiftingState._delete,
                 Node.__init__, Node.add_child, Unit.__init__, Time.update)
     if chk.thorough:
-        shapes = [(1, 0), (2, 0), (3, 0), (1, 2), (2, 2), (2, 3), (3, 2)]
+        shapes = [(1, 0), (2, 0), (3, 0), (1, 1), (2, 1), (1, 2), (2, 2), (2, 3), (3, 2)]
     else:
-        shapes = [(2, 0), (1, 2), (2, 2), (2, 3)]
+        shapes = [(2, 0), (2, 1), (1, 2), (2, 2), (2, 3)]
     chk.bound(tree_shapes=["%d roots x %d children" % s for s in shapes],
               sequence="extract A, extract B, mutate any unit of A in any of %d ways (in place and by replacement), "
                        "insert A, extract C, mutate C in place -- every choice of A, B, C, unit, mutation; lifted "
@@ -510,7 +572,7 @@ def do_replay(chk):
     class Q:
         info = d["info"]
         name = "replay"
-    out = replay_iso({}, Q)
+    out = replay_active({}, Q) if d.get("kind") == "active" else replay_iso({}, Q)
     print("replay:", out["what"])
     sys.exit(1 if out["reproduced"] else 0)
 
